@@ -425,6 +425,93 @@ fn crossing_then_reopen(res: &mut CaseResult) {
     let _ = run::take_panics();
 }
 
+/// The server closes channel 7 while its owner is publishing in a tight loop (the channel
+/// has messages waiting for the I/O thread at that very moment, with or without
+/// back-pressure): the id is available again afterwards, and a channel reopened under it
+/// works - the I/O thread must not keep anything of the old channel that makes it deaf
+/// to the new one.
+fn busy_then_reopen(r: &mut Rng, res: &mut CaseResult) {
+    let throttled = r.bool();
+    let tuning = if throttled { amiquip::ConnectionTuning::default().buffered_writes_high_water(20_000).buffered_writes_low_water(1_000) } else { amiquip::ConnectionTuning::default() };
+    let (conn, h) = session::open_with(Reflex::default(), session::default_opts(), tuning, |_| {});
+    let mut conn = match conn {
+        Ok(c) => c,
+        Err(e) => {
+            res.inconclusive(format!("handshake: {}", ek(&e)));
+            return;
+        }
+    };
+    let rounds = r.usize(2, 5);
+    for round in 0..rounds {
+        let ch = match conn.open_channel(Some(7)) {
+            Ok(c) => c,
+            Err(e) => {
+                res.violate("id_not_reusable", format!("round {}: open_channel(Some(7)) after the server had closed 7: {}", round, ek(&e)));
+                return;
+            }
+        };
+        if throttled {
+            // the transport takes data slowly: the channel waits its turn in the I/O thread
+            h.with(|st| st.budget = 30_000);
+        }
+        let body_len = r.usize(10, 3000);
+        let t = run::spawn("busy-owner", move || {
+            let body = vec![7u8; body_len];
+            let mut n = 0u64;
+            // ends when the server's close has reached the channel
+            while ch.basic_publish("", amiquip::Publish::new(&body, "busy")).is_ok() && n < 2_000_000 {
+                n += 1;
+            }
+            let later = ch.qos(0, 0, false).map_err(|e| ek(&e));
+            std::mem::forget(ch);
+            (n, later)
+        });
+        std::thread::sleep(std::time::Duration::from_micros(r.range(300, 4000)));
+        h.server_close_channel(7, 406, "PRECONDITION_FAILED");
+        if throttled {
+            std::thread::sleep(std::time::Duration::from_micros(r.range(0, 2000)));
+            h.grant(usize::MAX);
+        }
+        match t.join(W) {
+            J::Done((n, later)) => {
+                res.obs("publishes_before_the_servers_close", n);
+                match later {
+                    Err(e) if e.starts_with("ServerClosedChannel(7,406") || e == "EventLoopDropped" => {}
+                    other => res.violate("wrong_error_on_closed_channel", format!("call on channel 7 after the server's close: {:?}", other)),
+                }
+            }
+            _ => {
+                res.violate("caller_not_released", format!("round {}: the publisher on channel 7 was not released within 20 s of the server's Channel.Close", round));
+                return;
+            }
+        }
+        res.obs("busy_channels_closed_by_the_server", 1);
+    }
+    // and once more, with a call that needs an answer
+    let t = run::spawn("reopen", move || {
+        let r = conn.open_channel(Some(7)).map(|c| {
+            let ok = c.qos(0, 0, false).map_err(|e| ek(&e));
+            let _ = c.close();
+            ok
+        });
+        (conn, r.map_err(|e| ek(&e)))
+    });
+    match t.join(W) {
+        J::Done((conn, Ok(Ok(())))) => {
+            let t = run::spawn("close", move || conn.close());
+            match t.join(W) {
+                J::Done(Ok(())) => {}
+                J::Done(Err(e)) => res.violate("connection_disturbed", format!("Connection::close at the end: {}", ek(&e))),
+                _ => res.violate("connection_disturbed", "close did not return".to_string()),
+            }
+        }
+        J::Done((_, other)) => res.violate("id_not_reusable", format!("channel 7 reopened after {} server closes of a busy channel 7: open_channel(Some(7)) / first call = {:?}", rounds, other)),
+        _ => res.violate("id_not_reusable", format!("open_channel(Some(7)) after {} server closes of a busy channel 7 did not return within 20 s", rounds)),
+    }
+    let _ = run::take_panics();
+    res.sig = crate::rng::fnv_str(&format!("busyreopen{}{}", throttled, rounds));
+}
+
 fn done(r: Option<Rep>) -> Result<(), String> {
     match r {
         Some(Rep::Done(r)) => r,
@@ -443,6 +530,18 @@ pub fn run(rc: &mut RunCtx) {
         let mut res = CaseResult::new(id);
         crossing_then_reopen(&mut res);
         res.sample = Some(json!({"scenario": "client Close(7) and server Close(7) cross behind a stalled transport, id 7 reopened at once"}));
+        rc.end(res);
+    }
+    for i in 0..rc.n(6, 60) {
+        let id = format!("busy-reopen:{}", i);
+        if !rc.mine(&id) {
+            continue;
+        }
+        rc.begin(&id);
+        let mut res = CaseResult::new(id);
+        let mut r = Rng::for_case(seed, 9, 5_000_000 + i);
+        busy_then_reopen(&mut r, &mut res);
+        res.sample = Some(json!({"scenario": "the server closes channel 7 while its owner publishes in a tight loop; id 7 reopened and used"}));
         rc.end(res);
     }
     let n = rc.n(800, 10000);
